@@ -76,6 +76,18 @@ CHECKS.update({
     technique="Coq proof + correspondence",
     ref="DESIGN.md section 7 C16"),
 })
+CHECKS.update({
+ "C13": dict(
+    text="Proof (Coq, axiom-free): DualVigilanceART's own loop equals a scan of the visiting order with the three-way decision (first non-vetoed category passing the upper vigilance absorbs; else the first passing only the lower vigilance spawns a category with the same cluster label; else a brand-new label); every step keeps the map's keys = the base categories, its values contiguous = exactly 0..n_clusters-1 (n_clusters = distinct values = largest label + 1), returns a label of the map, never re-labels an existing category and restores the vigilance. Tied to /repo by the exact correspondence of DualVigilanceART histories (base state, map, own counter, n_clusters, reset-function log with cluster labels, predictions); the decision, map shape, label/prediction ranges and the base module's size bound are re-derived on the implementation.",
+    note="Trusted: Coq kernel+vm_compute, hand model + correspondence. The loop visits only categories with positive activation (as the code does); the theorem states that filter explicitly.",
+    technique="Coq proof (refinement search=scan, invariant over steps) + correspondence",
+    ref="DESIGN.md section 7 C13"),
+ "C14": dict(
+    text="Proof (Coq, axiom-free; total order on activations as hypothesis): the two winners of a TopoART step are distinct categories; a step and a pruning round each keep weights, counters, permanence flags and the adjacency matrix aligned (square, one row per category, zero diagonal); pruning keeps exactly the categories with >= phi samples or already permanent, in order, and makes them permanent; hence after any fit with any number of pruning rounds (also ones removing everything) the state is aligned. Tied to /repo by the exact correspondence of TopoART.fit / re-fit / predict (weights, counters, labels incl. -1, adjacency, permanence flags, reset-function log) with several pruning rounds; the two-winner step, edge increment, counters and the full pruning spec (incl. label re-indexing and orphans) are re-derived on the implementation after every sample.",
+    note="Trusted: as C13. Training through fit only (partial_fit never prunes: known finding under C06).",
+    technique="Coq proof (invariant over steps and pruning rounds) + correspondence",
+    ref="DESIGN.md section 7 C14"),
+})
 NOT_YET = {}
 def main():
     props = [json.loads(l) for l in open(os.path.join(V, "properties.jsonl"))]
